@@ -311,6 +311,11 @@ def l2_gen(seed, families, big):
             else:
                 ops.append(["src", "def", n, body(n), 0])
         elif x < wdef + wundef:
+            if r.below(8) == 0:
+                # #pragma push_macro / pop_macro: saved and restored definitions (undefinedness included) where the compiler
+                # implements them, nothing at all where it ignores the pragma -- the harness asks the compiler which it is
+                ops.append(["src", r.pick(["push", "push", "pop"]), n, "", 0])
+                continue
             if r.below(6) == 0:
                 # a directive inside a skipped group changes nothing (last field: which kind of skipped group)
                 ops.append(["src", r.pick(["skip_def", "skip_undef"]), n, str(uniq[0] + 500000), r.below(1000)])
@@ -318,12 +323,27 @@ def l2_gen(seed, families, big):
             ops.append(["src", "undef", n, "", 0])
             recent_undef = (recent_undef + [n])[-4:]
         else:
-            ops.append(["src", r.pick(["probe_ifdef", "probe_ifdefined", "probe_expand", "probe_call", "probe_ifndef", "probe_ifvalue", "probe_ifpaste", "probe_elif"]), n, "", r.below(1000)])
+            ops.append(["src", r.pick(["probe_ifdef", "probe_ifdefined", "probe_expand", "probe_call", "probe_ifndef", "probe_ifvalue", "probe_ifpaste", "probe_elif", "probe_pasteexpand"]), n, "", r.below(1000)])
     # closing sweep: every name is probed at the end (subsumes "no stale / lost name")
     for n in names if not big else r.sample(names, 60):
         ops.append(["src", "probe_ifdef", n, "", 0])
         ops.append(["src", "probe_expand", n, "", 0])
     return {"names": names, "ops": ops}
+
+
+PUSHPOP = [False]   # does the compiler under test implement #pragma push_macro / pop_macro? (set once by probe_pushpop)
+
+
+def probe_pushpop(cc, sdir):
+    f = os.path.join(sdir, "pushpop_probe.c")
+    with open(f, "w") as fh:
+        fh.write('#define PP_X 1\n#pragma push_macro("PP_X")\n#undef PP_X\n#pragma pop_macro("PP_X")\n#ifdef PP_X\n"SUPPORTED" ;\n#endif\n')
+    try:
+        p = subprocess.run([cc, "-E", f], stdout=subprocess.PIPE, stderr=subprocess.PIPE, timeout=30)
+        PUSHPOP[0] = b"SUPPORTED" in p.stdout
+    except Exception:
+        PUSHPOP[0] = False
+    return PUSHPOP[0]
 
 
 def l2_render(plan):
@@ -334,6 +354,7 @@ def l2_render(plan):
     args, src, exp = [], ["#define CAT_(a,b) a##b", "#define XCAT_(a,b) CAT_(a,b)"], []
     inc = [[], []]   # up to two files given with -include: processed after every -D / -U, in command-line order, before the source
     pid = 0
+    stacks = {}
     allops = plan["ops"]
     ordered = [o for o in allops if o[0] == "arg"] + [o for o in allops if o[0] == "inc" and o[4] % 2 == 0] + \
               [o for o in allops if o[0] == "inc" and o[4] % 2 == 1] + [o for o in allops if o[0] == "src"]
@@ -360,6 +381,18 @@ def l2_render(plan):
                 val = n if b is None else n + "=" + b
                 args += ["-D", val] if sep else ["-D" + val]
                 model[n] = ("obj", "1" if b is None else b)
+            continue
+        if kind in ("push", "pop"):
+            src.append('#pragma %s_macro("%s")' % (kind, n))
+            if PUSHPOP[0]:
+                if kind == "push":
+                    stacks.setdefault(n, []).append(model.get(n))
+                elif stacks.get(n):
+                    old = stacks[n].pop()
+                    if old is None:
+                        model.pop(n, None)
+                    else:
+                        model[n] = old
             continue
         if kind in ("skip_def", "skip_undef"):
             d = "#define %s %s" % (n, b) if kind == "skip_def" else "#undef %s" % n
@@ -420,8 +453,14 @@ def l2_render(plan):
                 exp.append('"%s" %d' % ("D" if d else "U", pid))
             elif d and model[n][0] == "dyn":
                 pid -= 1    # no expansion probe for a built-in that is still built in
-            elif kind == "probe_expand":
-                src.append('"X" %d %s ;' % (pid, n))
+            elif kind in ("probe_expand", "probe_pasteexpand"):
+                spelt = n
+                if kind == "probe_pasteexpand" and len(n) >= 2:
+                    # the name comes into being by ## during an expansion and is looked up when the result is rescanned
+                    cut = 1 + sep % (len(n) - 1)
+                    if (n[cut:][0].isalpha() or n[cut:][0] == "_") and n[:cut] not in model and n[cut:] not in model:
+                        spelt = "CAT_(%s,%s)" % (n[:cut], n[cut:])
+                src.append('"X" %d %s ;' % (pid, spelt))
                 if d and model[n][0] == "obj":
                     e = model[n][1]
                 else:
@@ -577,6 +616,7 @@ def l2_worker(cc, sdir, wid, master, start, step, total, families, big_every, de
 def level2(cc, sdir, master, total, families, big_every, rep, stats, seconds):
     deadline = time.monotonic() + seconds
     nw = NCPU
+    stats["l2_push_pop_macro_implemented_by_the_compiler"] = probe_pushpop(cc, sdir)
     # separate worker *processes*: forking chibicc from 16 threads of one python serialises on the GIL
     import multiprocessing as mp
     with mp.get_context("fork").Pool(nw) as pool:
@@ -606,6 +646,7 @@ def level2(cc, sdir, master, total, families, big_every, rep, stats, seconds):
 
 
 def l2_replay(cc, sdir, plan):
+    probe_pushpop(cc, sdir)
     return l2_exec(cc, sdir, 999, plan)
 
 
@@ -678,8 +719,37 @@ def l3_gen(seed, families):
             probes += 1
 
     nptr = [0]
+    # arrays declared twice in ONE scope: `extern char N[];` first, the size later (same scope, any number of other
+    # declarations in between). The second declaration must win: sizeof(N) is the size it gave.
+    anames = ["ar%d_%d" % (seed % 1000, k) for k in range(r.pick([1, 2, 4]))]
+    asize = dict((a, 3 + (k * 7 + seed) % 23) for k, a in enumerate(anames))
+
+    def declare_arr(at_file_scope):
+        a = r.pick(anames)
+        ind = "" if at_file_scope else "  "
+        vis = lookup(ordinary, a)
+        if vis is None:
+            if r.below(3):
+                lines.append("%sextern char %s[];" % (ind, a))
+                ordinary[-1][a] = ("arrinc", None)
+            else:
+                lines.append("%sextern char %s[%d];" % (ind, a, asize[a]))
+                ordinary[-1][a] = ("arr", asize[a])
+        elif vis[0] == "arrinc" and a in ordinary[-1]:
+            lines.append("%s%schar %s[%d];" % (ind, "" if at_file_scope and r.below(2) else "extern ", a, asize[a]))
+            ordinary[-1][a] = ("arr", asize[a])
+
+    def probe_arr():
+        nonlocal probes
+        a = r.pick(anames)
+        vis = lookup(ordinary, a)
+        if vis and vis[0] == "arr":
+            lines.append("  line = line ? line : (sizeof(%s) != %d ? __LINE__ : 0);" % (a, vis[1]))
+            probes += 1
 
     def declare(n, at_file_scope):
+        if r.below(8) == 0:
+            return declare_arr(at_file_scope)
         k = r.pick([0, 1, 2, 3, 0, 1, 2, 3, 4, 5])
         if k < 3 and n in ordinary[-1]:
             k = 3
@@ -780,6 +850,7 @@ def l3_gen(seed, families):
                     ordinary[-1][n] = ("enum", v)
             else:
                 probe(r.pick(names))
+                probe_arr()
 
     funcs = []
     # helper functions: parameters live in the function's scope and hide file-scope names only inside it
